@@ -17,6 +17,7 @@ type C09Case struct {
 	Prog     *Prog    `json:"prog"`
 	PreFiles int      `json:"prefiles"` // pre-seeded fail files (all-zero words of various lengths)
 	Heavy    bool     `json:"heavy,omitempty"`
+	NoDraw   bool     `json:"nodraw,omitempty"` // never falsified, draws nothing / late / skips by invocation count
 	Hosted   bool     `json:"hosted,omitempty"` // also run through MakeCheck on a real *testing.T (of a binary without a test deadline)
 }
 
@@ -62,6 +63,30 @@ func (c09) Gen(dt *drv.T, c *Ctx) any {
 		cs.PreFiles = drv.IntRange(1, 3).Draw(dt, "k")
 	}
 	p := &Prog{}
+	if chance(dt, "nodraw", 12) {
+		// a property that is never falsified and draws nothing (it tests something that needs no input, or takes its
+		// input from elsewhere), or begins to draw only after a few invocations (a warm-up), or is skipped in some
+		// invocations for reasons of its own: N valid test cases are owed all the same
+		cs.NoDraw = true
+		late := &Stmt{Op: "ifinvge", N: drv.IntRange(1, 6).Draw(dt, "warmup"), Body: []*Stmt{{Op: "draw", Label: "late", Gen: &GenSpec{K: "int", IK: "Int", Mode: "range", SA: 0, SB: 999}}}}
+		m := drv.IntRange(2, 12).Draw(dt, "skipevery")
+		skip := &Stmt{Op: "ifinvmod", N: m, D: int64(drv.IntRange(0, m-1).Draw(dt, "skipat")), Body: []*Stmt{{Op: "skip", Kind: pick(dt, "skipkind", skipKinds...)}}}
+		switch pick(dt, "nodrawshape", "empty", "empty", "late", "skip", "skip+late", "late+skip", "log") {
+		case "late":
+			p.Body = []*Stmt{late}
+		case "skip":
+			p.Body = []*Stmt{skip}
+		case "skip+late":
+			p.Body = []*Stmt{skip, late}
+		case "late+skip":
+			p.Body = []*Stmt{late, skip}
+		case "log":
+			p.Body = []*Stmt{{Op: "log", N: 8}}
+		}
+		cs.Prog = p
+		cs.Hosted = cs.PreFiles == 0 && chance(dt, "hosted", 20)
+		return cs
+	}
 	p.Body = append(p.Body, &Stmt{Op: "draw", Label: "d1", Gen: &GenSpec{K: "int", IK: "Int", Mode: "range", SA: 0, SB: 999}})
 	switch pick(dt, "skippat", "never", "never", "mod", "mod", "mod", "always", "filternever", "ge") {
 	case "mod":
@@ -166,6 +191,9 @@ func (c09) Run(c *Ctx, csAny any) Outcome {
 	}
 	if cs.Heavy {
 		out.Classes = append(out.Classes, "heavy-run(millions-of-words)")
+	}
+	if cs.NoDraw {
+		out.Classes = append(out.Classes, "draw-free-or-late-drawing-property")
 	}
 	if cs.Hosted && cs.PreFiles == 0 {
 		// the same run through MakeCheck on a real *testing.T: same seed, same flags, so the same invocations and
@@ -283,7 +311,7 @@ func (c09) Run(c *Ctx, csAny any) Outcome {
 		out.Viol = violf("C09:too-few-invocations", "N=%d: Check stopped after valid=%d skipped=%d", N, valid, skipped)
 		return out
 	}
-	out.NonTrivial = (skipped > 0 && valid > 0) || (valid < N)
+	out.NonTrivial = (skipped > 0 && valid > 0) || (valid < N) || (cs.NoDraw && N >= 2)
 	if valid == N {
 		out.Classes = append(out.Classes, "enough-valid")
 		if obs.Failed {
